@@ -110,6 +110,15 @@ func attachSemantic(ctx *Ctx, attach *ssa.Function, busT types.Type) []string {
 	if p, v := propOf(bc, "==", o.And(o.Add(end, k32(1)), k32(15)), k32(0)); v {
 		endOK = append(endOK, p)
 	}
+	// one test for both: (start | end+1) & 15 == 0 holds exactly when both are aligned
+	if p, v := propOf(bc, "==", o.And(o.Or(start, o.Add(end, k32(1))), k32(15)), k32(0)); v {
+		startOK = append(startOK, p)
+		endOK = append(endOK, p)
+	}
+	if p, v := propOf(bc, "==", o.Or(o.And(start, k32(15)), o.And(o.Add(end, k32(1)), k32(15))), k32(0)); v {
+		startOK = append(startOK, p)
+		endOK = append(endOK, p)
+	}
 	holds := func(props map[string]bool, names []string) bool {
 		for _, n := range names {
 			if v, ok := props[n]; ok && v {
